@@ -188,6 +188,10 @@ func genEPUB(r *hx.Rng) *pkg {
 		}
 		p.Decoys = append(p.Decoys, d)
 	}
+	// near-name members: a second member whose name differs from a declared part's only
+	// in letter case / normalisation form / percent-decoding (twins.go); own stream, so
+	// the packages without them are the same as before
+	p.addEPUBTwins(r.Fork(0x7717), used, &manifest, &spine)
 	// navigation: EPUB 3 nav document, EPUB 2 NCX (either may be missing; EPUB 3 may carry both)
 	navTok, ncxTok := token(r, 90), token(r, 91)
 	hasNav := v3 && r.Chance(5, 6)
